@@ -13,7 +13,10 @@ the model always runs the code's current lock programs) by that shape, never by 
   paths with these selections), `late` (error exit after the selections: the last one), `early` (error
   exit before anything else: the first early exit without selections);
 * `u:<exit>[:tag]` — `RegisterUnidirectional`;  `r:<exit>` — `ReloadSubnets` (`ok` / `early`);
-* `p:<letters>` = an explicit program (r rlock, u runlock, L lock, U unlock, R readSel, W swapSel, S select).
+* `w:hold` / `h:read` — the harness's stand-ins for a critical section kept open: `selectorMutex.Lock()` /
+  `.RLock()`, a gate at which the harness holds the goroutine, `Unlock()` / `RUnlock()`;
+* `p:<letters>` = an explicit program (r rlock, u runlock, L lock, U unlock, R readSel, W swapSel, S select,
+  t tryrlock, T trylock, G gate).
 
 An entry point without an entry in the table performs no operation on the selector lock (theorem
 `extractor_covers`): its program is empty.  Paths with the same shape and the same operations are one
@@ -24,20 +27,27 @@ candidate; when the exit class asked for has no candidate the other class is use
 * `rwfind|<threads>` — `deadlock` / `none` (breadth-first search over all fine-grained schedules).
 * `rwsched|<threads>` — the fine-grained schedule found by the search: `deadlock:<i>.<i>.…` / `none`.
 * `rwevents|<threads>` — a deadlocking sequence of harness events (`s<i>`, `g<i>`), found by depth-first
-  search over coarse runs: `deadlock:s0.s1.g0` / `none`; the harness replays it on the real processor. -/
+  search over coarse runs: `deadlock:s0.s1.g0` / `none`; the harness replays it on the real processor.
+* `rwrefuse|<threads>` — a sequence of harness events after which some thread has been refused by a failed
+  `Try*` acquisition: `refused:s0.s1` / `none`; replayed on the real processor as well.
+* `rwrefsched|<threads>` — the same over all fine-grained schedules: `refused:<i>.<i>.…` / `none`.
+
+A request that a failed `Try*` turned away has returned an error: it is printed `done:err` like any other
+error exit; a reload that was turned away is `done` and has not increased the version. -/
 namespace CJ.Drv.RW
 open CJ.RW CJ.Drv
 
 inductive Exit | ok | sel | late | early
 deriving DecidableEq, Repr
 
-inductive Kind | req (fams : List Nat) (exit : Exit) | uni (exit : Exit) | rel | raw
+inductive Kind | req (fams : List Nat) (exit : Exit) | uni (exit : Exit) | rel | raw | hold
 
 def parseOps (s : String) : Option (List Op) :=
   s.toList.mapM fun c =>
     match c with
     | 'r' => some .rlock | 'u' => some .runlock | 'L' => some .lock | 'U' => some .unlock
     | 'R' => some .readSel | 'W' => some .swapSel | 'S' => some .select
+    | 't' => some .tryrlock | 'T' => some .trylock | 'G' => some .gate
     | _ => none
 
 def parseExit : String → Option Exit
@@ -83,6 +93,8 @@ def parseThread (s : String) : Option (Kind × List Op) :=
     let exit ← parseExit e
     let p ← lookup CJ.Gen.selectorPaths "RegProcessor.ReloadSubnets" [] exit
     some (.rel, p)
+  | ["w", "hold"] => some (.hold, [.lock, .gate, .unlock])
+  | ["h", "read"] => some (.hold, [.rlock, .gate, .runlock])
   | ["p", ops] => (parseOps ops).map fun p => (.raw, p)
   | _ => none
 
@@ -107,10 +119,11 @@ def showThread (c : Coarse) (i : Nat) (k : Kind) (t : Thread) : String :=
   if !c.started.contains i then "idle"
   else if t.prog.isEmpty then
     match k with
-    | .req fams exit => "done:" ++ showReq fams exit t.seen
-    | .uni exit => if exit == .ok then "done:sent" else "done:err"
+    | .req fams exit => if t.refused then "done:err" else "done:" ++ showReq fams exit t.seen
+    | .uni exit => if exit == .ok && !t.refused then "done:sent" else "done:err"
     | .rel => "done"
-    | .raw => "done:" ++ joinWith "." (t.seen.map showVer)
+    | .hold => "done"
+    | .raw => if t.refused then "done:refused" else "done:" ++ joinWith "." (t.seen.map showVer)
   else if c.parked.contains i then "parked"
   else "blocked"
 
@@ -139,12 +152,26 @@ def handleEvents (ths : String) : Option String := do
   | none => some "none"
   | some evs => some ("deadlock:" ++ joinWith "." (evs.map showEv))
 
+def handleRefuse (ths : String) : Option String := do
+  let specs ← (fields ths ",").mapM parseThread
+  match findRefusalEvents (specs.map (·.2)) with
+  | none => some "none"
+  | some evs => some ("refused:" ++ joinWith "." (evs.map showEv))
+
+def handleRefuseSched (ths : String) : Option String := do
+  let specs ← (fields ths ",").mapM parseThread
+  match findRefusal (specs.map (·.2)) with
+  | none => some "none"
+  | some sched => some ("refused:" ++ joinWith "." (sched.map toString))
+
 def handle (cmd : String) (args : List String) : Option String :=
   match cmd, args with
   | "rw", [ths, evs] => handleRun ths evs
   | "rwfind", [ths] => handleFind ths false
   | "rwsched", [ths] => handleFind ths true
   | "rwevents", [ths] => handleEvents ths
+  | "rwrefuse", [ths] => handleRefuse ths
+  | "rwrefsched", [ths] => handleRefuseSched ths
   | _, _ => none
 
 end CJ.Drv.RW
